@@ -23,31 +23,57 @@ theorem hasA_iff {β : Type} (k : Str) (m : List (Str × β)) : hasA k m = true 
 
 theorem mem_sortStrs (k : Str) (l : List Str) : k ∈ sortStrs l ↔ k ∈ l := (isort_perm _ l).mem_iff
 
-/-- `checkExtra` finds nothing iff both maps have the same keys. -/
-theorem checkExtra_none {α β : Type} (a : List (Str × α)) (b : List (Str × β)) :
+theorem commaJoin_nil_iff (l : List Str) (h : [] ∉ l) : (commaJoin l).isEmpty = true ↔ l = [] := by
+  constructor
+  · intro he
+    cases l with
+    | nil => rfl
+    | cons x xs =>
+      exfalso
+      have hx : x ≠ [] := fun e => h (by simp [e])
+      cases x with
+      | nil => exact hx rfl
+      | cons c cs => cases xs <;> simp [commaJoin, joinWith] at he
+  · intro e; subst e; rfl
+
+/-- `checkExtra` finds nothing iff both maps have the same keys — provided no key is the empty
+string (the code tests the comma-joined names for emptiness). -/
+theorem checkExtra_none {α β : Type} (a : List (Str × α)) (b : List (Str × β))
+    (hna : [] ∉ keysA a) (hnb : [] ∉ keysA b) :
     checkExtra a b = none ↔ ∀ k, hasA k a = hasA k b := by
-  have hx : ∀ {γ δ : Type} (x : List (Str × γ)) (y : List (Str × δ)),
-      (getExtra x y).isEmpty = true ↔ ∀ k, hasA k x = true → hasA k y = true := by
-    intro γ δ x y
-    simp only [getExtra, List.isEmpty_iff, List.filter_eq_nil_iff, mem_sortStrs, mem_keysA]
+  have hmem : ∀ {γ δ : Type} (x : List (Str × γ)) (y : List (Str × δ)), [] ∉ keysA x → [] ∉ getExtra x y := by
+    intro γ δ x y hx hm
+    simp only [getExtra, List.mem_filter, mem_sortStrs] at hm
+    exact hx hm.1
+  have hx : ∀ {γ δ : Type} (x : List (Str × γ)) (y : List (Str × δ)), [] ∉ keysA x →
+      ((commaJoin (getExtra x y)).isEmpty = true ↔ ∀ k, hasA k x = true → hasA k y = true) := by
+    intro γ δ x y hnx
+    rw [commaJoin_nil_iff _ (hmem x y hnx)]
+    simp only [getExtra, List.filter_eq_nil_iff, mem_sortStrs, mem_keysA]
     constructor
     · intro h k hk; simpa using h k hk
     · intro h k hk; simpa using h k hk
   unfold checkExtra
   constructor
   · intro h
-    have h' : (getExtra a b).isEmpty = true ∧ (getExtra b a).isEmpty = true := by
-      by_cases hc : ((getExtra a b).isEmpty && (getExtra b a).isEmpty) = true
+    have h' : (commaJoin (getExtra a b)).isEmpty = true ∧ (commaJoin (getExtra b a)).isEmpty = true := by
+      by_cases hc : ((commaJoin (getExtra a b)).isEmpty && (commaJoin (getExtra b a)).isEmpty) = true
       · simpa using hc
       · simp [hc] at h
     intro k
-    have h1 := (hx a b).mp h'.1 k
-    have h2 := (hx b a).mp h'.2 k
+    have h1 := (hx a b hna).mp h'.1 k
+    have h2 := (hx b a hnb).mp h'.2 k
     cases ha : hasA k a <;> cases hb : hasA k b <;> simp_all
   · intro h
-    have h1 : (getExtra a b).isEmpty = true := (hx a b).mpr (fun k hk => by rw [← h k]; exact hk)
-    have h2 : (getExtra b a).isEmpty = true := (hx b a).mpr (fun k hk => by rw [h k]; exact hk)
+    have h1 : (commaJoin (getExtra a b)).isEmpty = true := (hx a b hna).mpr (fun k hk => by rw [← h k]; exact hk)
+    have h2 : (commaJoin (getExtra b a)).isEmpty = true := (hx b a hnb).mpr (fun k hk => by rw [h k]; exact hk)
     simp [h1, h2]
+
+/-- No key is the empty string, at any level of a rule set. -/
+def NEPairs (p : Pairs) : Prop := [] ∉ keysA p
+def NERules (l : List Rule) : Prop := ∀ r ∈ l, NEPairs r.pairs
+def NEChains (cm : Chains) : Prop := [] ∉ keysA cm ∧ ∀ c ch, getA c cm = some ch → NERules ch.rules
+def NETables (tb : Tables) : Prop := [] ∉ keysA tb ∧ ∀ t cm, getA t tb = some cm → NEChains cm
 
 /-! ### extensional equality -/
 
@@ -82,17 +108,18 @@ theorem firstDiff_same {α : Type} (f : α → IptDiff) (l : List α) :
     simp only [firstDiff, List.mem_cons, forall_eq_or_imp]
     cases h : f x <;> simp [ih]
 
-theorem diffRule_same (t c : Str) (i : Nat) (a b : Pairs) : diffRule t c i a b = .same ↔ PairsEq a b := by
+theorem diffRule_same (t c : Str) (i : Nat) (a b : Pairs) (hna : NEPairs a) (hnb : NEPairs b) :
+    diffRule t c i a b = .same ↔ PairsEq a b := by
   unfold diffRule
   cases hce : checkExtra a b with
   | some x =>
     obtain ⟨ae, be⟩ := x
     simp only [reduceCtorEq, false_iff]
     intro heq
-    have := (checkExtra_none a b).mpr (fun k => by simp [hasA, heq k])
+    have := (checkExtra_none a b hna hnb).mpr (fun k => by simp [hasA, heq k])
     simp [hce] at this
   | none =>
-    have hk := (checkExtra_none a b).mp hce
+    have hk := (checkExtra_none a b hna hnb).mp hce
     simp only
     split
     · rename_i hemp
@@ -126,18 +153,19 @@ theorem diffRule_same (t c : Str) (i : Nat) (a b : Pairs) : diffRule t c i a b =
       simp [heq k]
 
 theorem diffRules_same (t c : Str) : ∀ (i : Nat) (as bs : List Rule), as.length = bs.length →
-    (diffRules t c i as bs = .same ↔ RulesEq as bs) := by
+    NERules as → NERules bs → (diffRules t c i as bs = .same ↔ RulesEq as bs) := by
   intro i as
   induction as generalizing i with
-  | nil => intro bs h; cases bs <;> simp_all [diffRules, RulesEq]
+  | nil => intro bs h _ _; cases bs <;> simp_all [diffRules, RulesEq]
   | cons a as ih =>
-    intro bs h
+    intro bs h hna hnb
     cases bs with
     | nil => simp at h
     | cons b bs =>
       simp only [List.length_cons, Nat.add_right_cancel_iff] at h
       simp only [diffRules, RulesEq]
-      rw [← diffRule_same t c i a.pairs b.pairs, ← ih (i + 1) bs h]
+      rw [← diffRule_same t c i a.pairs b.pairs (hna a (by simp)) (hnb b (by simp)),
+        ← ih (i + 1) bs h (fun r hr => hna r (by simp [hr])) (fun r hr => hnb r (by simp [hr]))]
       cases hd : diffRule t c i a.pairs b.pairs <;> simp
 
 theorem RulesEq_length : ∀ (as bs : List Rule), RulesEq as bs → as.length = bs.length := by
@@ -150,11 +178,12 @@ theorem RulesEq_length : ∀ (as bs : List Rule), RulesEq as bs → as.length = 
     | nil => simp [RulesEq] at h
     | cons b bs => simp [RulesEq] at h; simp [ih bs h.2]
 
-theorem diffChain_same (t c : Str) (a b : Chain) : diffChain t c a b = .same ↔ ChainEq a b := by
+theorem diffChain_same (t c : Str) (a b : Chain) (hna : NERules a.rules) (hnb : NERules b.rules) :
+    diffChain t c a b = .same ↔ ChainEq a b := by
   unfold diffChain ChainEq
   by_cases hp : a.policy = b.policy
   · by_cases hl : a.rules.length = b.rules.length
-    · simp [hp, hl, diffRules_same t c 0 _ _ hl]
+    · simp [hp, hl, diffRules_same t c 0 _ _ hl hna hnb]
     · simp only [hp, ne_eq, not_true_eq_false, ↓reduceIte, hl, not_false_eq_true, reduceCtorEq, true_and, false_iff]
       intro h; exact hl (RulesEq_length _ _ h)
   · simp [hp]
@@ -162,19 +191,20 @@ theorem diffChain_same (t c : Str) (a b : Chain) : diffChain t c a b = .same ↔
 theorem getD_of_some {β : Type} [Inhabited β] {k : Str} {m : List (Str × β)} {v : β} (h : getA k m = some v) :
     (getA k m).getD default = v := by simp [h]
 
-theorem diffTable_same (t : Str) (a b : Chains) : diffTable t a b = .same ↔ ChainsEq a b := by
+theorem diffTable_same (t : Str) (a b : Chains) (hna : NEChains a) (hnb : NEChains b) :
+    diffTable t a b = .same ↔ ChainsEq a b := by
   unfold diffTable
   cases hce : checkExtra a b with
   | some x =>
     obtain ⟨ae, be⟩ := x
     simp only [reduceCtorEq, false_iff]
     intro heq
-    have := (checkExtra_none a b).mpr (fun k => by
+    have := (checkExtra_none a b hna.1 hnb.1).mpr (fun k => by
       have := heq k
       cases ha : getA k a <;> cases hb : getA k b <;> simp_all [hasA])
     simp [hce] at this
   | none =>
-    have hk := (checkExtra_none a b).mp hce
+    have hk := (checkExtra_none a b hna.1 hnb.1).mp hce
     simp only [firstDiff_same, mem_sortStrs, mem_keysA]
     constructor
     · intro h c
@@ -186,30 +216,31 @@ theorem diffTable_same (t : Str) (a b : Chains) : diffTable t a b = .same ↔ Ch
       | some x =>
         have hka : hasA c a = true := by simp [hasA, ha]
         obtain ⟨y, hy⟩ := (hasA_iff c b).mp (by rw [← hk c]; exact hka)
-        have := (diffChain_same t c _ _).mp (h c hka)
+        have := (diffChain_same t c _ _ (by rw [getD_of_some ha]; exact hna.2 c x ha) (by rw [getD_of_some hy]; exact hnb.2 c y hy)).mp (h c hka)
         simpa [ha, hy] using this
     · intro h c hc
       obtain ⟨x, hx⟩ := (hasA_iff c a).mp hc
       obtain ⟨y, hy⟩ := (hasA_iff c b).mp (by rw [← hk c]; exact hc)
       have := h c
       simp only [hx, hy] at this
-      apply (diffChain_same t c _ _).mpr
+      apply (diffChain_same t c _ _ (by rw [getD_of_some hx]; exact hna.2 c x hx) (by rw [getD_of_some hy]; exact hnb.2 c y hy)).mpr
       simpa [hx, hy] using this
 
 /-- `diffIPTables` reports no difference iff the rule sets are extensionally equal. -/
-theorem diffIPTables_same (a b : Tables) : diffIPTables a b = .same ↔ TablesEq a b := by
+theorem diffIPTables_same (a b : Tables) (hna : NETables a) (hnb : NETables b) :
+    diffIPTables a b = .same ↔ TablesEq a b := by
   unfold diffIPTables
   cases hce : checkExtra a b with
   | some x =>
     obtain ⟨ae, be⟩ := x
     simp only [reduceCtorEq, false_iff]
     intro heq
-    have := (checkExtra_none a b).mpr (fun k => by
+    have := (checkExtra_none a b hna.1 hnb.1).mpr (fun k => by
       have := heq k
       cases ha : getA k a <;> cases hb : getA k b <;> simp_all [hasA])
     simp [hce] at this
   | none =>
-    have hk := (checkExtra_none a b).mp hce
+    have hk := (checkExtra_none a b hna.1 hnb.1).mp hce
     simp only [firstDiff_same, mem_sortStrs, mem_keysA]
     constructor
     · intro h t
@@ -221,14 +252,14 @@ theorem diffIPTables_same (a b : Tables) : diffIPTables a b = .same ↔ TablesEq
       | some x =>
         have hka : hasA t a = true := by simp [hasA, ha]
         obtain ⟨y, hy⟩ := (hasA_iff t b).mp (by rw [← hk t]; exact hka)
-        have := (diffTable_same t _ _).mp (h t hka)
+        have := (diffTable_same t _ _ (by simpa [ha] using hna.2 t x ha) (by simpa [hy] using hnb.2 t y hy)).mp (h t hka)
         simpa [ha, hy] using this
     · intro h t ht
       obtain ⟨x, hx⟩ := (hasA_iff t a).mp ht
       obtain ⟨y, hy⟩ := (hasA_iff t b).mp (by rw [← hk t]; exact ht)
       have := h t
       simp only [hx, hy] at this
-      apply (diffTable_same t _ _).mpr
+      apply (diffTable_same t _ _ (by simpa [hx] using hna.2 t x hx) (by simpa [hy] using hnb.2 t y hy)).mpr
       simpa [hx, hy] using this
 
 end NA.C05
